@@ -23,7 +23,9 @@ def b3_configs(tier):
                                                 invs=store.INVS_INGEST))]
     return [("single-run-len5", dict(spans=u, maxlen=5, batches=(1, 2, 3, 4, 6), invs=store.INVS_INGEST, timeout=3000)),
             ("two-runs-len3-cleaning", dict(spans=u, maxlen=3, batches=(1, 2, 3, 4), maxruns=2, clean_on=True,
-                                            invs=store.INVS_INGEST, timeout=3000))]
+                                            invs=store.INVS_INGEST, timeout=3000)),
+            ("simulate-4-runs-len8", dict(spans=u, maxlen=8, batches=(1, 2, 3, 4, 6, 9), maxruns=4, clean_on=True,
+                                          invs=store.INVS_INGEST, simulate="num=30000", depth=200, workers=8, timeout=3000))]
 
 
 def scenarios(tier, seed):
